@@ -420,12 +420,18 @@ def run_adversarial(ctx, i, log):
   spec = dict(root=root, d_in=2, d_out=2)
   desc = dict(paths=[pa, pb], stream=stream)
   with ctx.case('adversarial', i, desc, nontrivial=True):
+    m = LP.make_module(root)
+    x = np.ones((2,), np.float32)
+    rngs = LP.rng_dict(spec, 1 + i, extra=['noise', 'other'])
+    # the same program first runs with the separator fix OFF in this process (collisions are expected and not asserted there):
+    # keys are a function of (seed, stream, position, flag) only, never of what was hashed earlier in the process
+    flax.config.update('flax_fix_rng_separator', False)
+    _, ev_off = run_logged(log, m, rngs, x)
     flax.config.update('flax_fix_rng_separator', True)
     try:
-      m = LP.make_module(root)
-      x = np.ones((2,), np.float32)
-      rngs = LP.rng_dict(spec, 1 + i, extra=['noise', 'other'])
-      _, ev = run_logged(log, m, rngs, x)
+      _, ev = run_logged(log, LP.make_module(root), rngs, x)
+      _, ev_again = run_logged(log, LP.make_module(root), rngs, x)
+      ctx.check(ev == ev_again, 'determinism:draw_log', lambda: dict(case=desc))
       keys = {}
       for path, req, eff, cnt, kb in ev:
         keys.setdefault(kb, []).append((path, eff, cnt))
